@@ -8,13 +8,13 @@ Import ListNotations.
 Local Open Scope Z_scope.
 
 Definition T (s : string) : str := StrLit.S s.
-Definition W (s : string) : run := map LCh (T s).              (* a word of plain characters *)
+Definition W (s : string) : trun := map LCh (T s).              (* a word of plain characters *)
 Definition ws : lex := LGap (GWs 32%N).
 Definition sp : gap := [GWs 32%N].
 Definition nl : gap := [GWs 10%N].
 Definition lit (q : char) (s : string) : lex := LStr q (map SC (T s)).
-Definition sel1 (r : run) : selector := mkSel None r [].
-Definition decl (n v : run) : item := SDecl sp n [] sp v [].    (* ` n: v;` *)
+Definition sel1 (r : trun) : selector := mkSel None r [].
+Definition decl (n v : trun) : item := SDecl sp n [] sp v [].    (* ` n: v;` *)
 
 (* core: nested rules, identifier/combinator selectors, `name: value;`, words and spaces *)
 Definition sh_core : sheet :=
